@@ -15,7 +15,7 @@ ASSUMPTIONS = ["storage methods are driven directly with mementos built from rea
                "no I/O faults here (those are C08); restart = new backend object over the same directories"]
 COMPONENTS = {"real": ["twosigma.memento storage backends, codecs, metadata source, memory cache", "tmpfs"],
               "stub": ["uuid4 (seeded)", "clock (virtual)", "mementos are built by the harness, not by the runner"]}
-REACH = ["reads_with_held_memento", "restarts", "rememoize_live_key", "override_writes", "forgot_live", "forget_everything", "metadata_writes",
+REACH = ["forget_failed_with_io_error", "reads_with_held_memento", "restarts", "rememoize_live_key", "override_writes", "forgot_live", "forget_everything", "metadata_writes",
          "reads_of_live"]
 
 
@@ -29,9 +29,33 @@ def cases(tier, seed):
               "sep_meta": rng.random() < 0.4, "hold": rng.random() < 0.5}
         mem = {"backend": "memory", "cache_kib": None, "sep_meta": False}
         ops = storeops.gen_ops(rng, rng.randrange(3, 41), fc, "c05")
-        out.append({"seed": s, "backends": [fs, fc, mem], "ops": ops})
+        case = {"seed": s, "backends": [fs, fc, mem], "ops": ops}
+        if i % 4 == 0:
+            # a fault-injecting configuration: some forget_call operations meet a reported I/O error at one of their file
+            # operations and are repeated; after the successful repeat the dictionary model applies unchanged
+            faults = {}
+            new_ops = []
+            for op in ops:
+                if op[0] == "forget_call" and rng.random() < 0.6:
+                    if rng.random() < 0.5:
+                        # faults belong inside operations that have state in flight: make sure the call being forgotten is
+                        # live and has a custom metadata record, so that the forget consists of several deletions
+                        new_ops.append(["memoize", op[1], op[2], {"cls": "tiny", "n": 10, "t": "str", "u": rng.randrange(1, 6)}, None])
+                        new_ops.append(["wmeta", op[1], op[2], rng.choice(storeops.META_KEYS), "%06x" % rng.randrange(1 << 24), False])
+                    faults[str(len(new_ops))] = {"variant": "error-before", "k": rng.choice([1, 2, 2, 3, 3, 4, 4, 5, 6, 7, 8]),
+                                                 "errno": rng.choice(["EIO", "EACCES", "ENOSPC"])}
+                new_ops.append(op)
+            ops = new_ops
+            case["ops"] = ops
+            if faults:
+                case["faults"] = faults
+        out.append(case)
     return out
 
 
 def execute(case):
     return storeops.execute_case(case, {"dict"}, "c05", PROP)
+
+
+def shrink(case, same, budget_s):
+    return storeops.shrink_ops_with_faults(case, same, budget_s)
